@@ -497,6 +497,13 @@ func (p *sshFxpOpenPacket) respond(svr *Server) responsePacket {
 		osFlags |= os.O_EXCL
 	}
 
+	// The attribute block must match its flags even when nothing of it is used.
+	if b, ok := p.Attrs.([]byte); ok {
+		if _, _, err := unmarshalFileStat(p.Flags, b); err != nil {
+			return statusFromError(p.ID, err)
+		}
+	}
+
 	mode := os.FileMode(0o644)
 	// Like OpenSSH, we only handle permissions here, and only when the file is being created.
 	// Otherwise, the permissions are ignored.
